@@ -78,9 +78,72 @@ type recorder struct {
 	enc   *json.Encoder
 	seq   int
 	count map[string]int
+	tick  *tickRec // optional second log grouped by engine event
+}
+
+// tickRec writes the tick-level log: the port events of one engine event are
+// grouped into one Tick line carrying the component (or connection) that ticked.
+type tickRec struct {
+	r       *recorder
+	cur     []rec
+	handler map[sim.Handler]portID
+}
+
+func connOf(p portID) portID {
+	switch p.K {
+	case "drv", "gU":
+		return portID{"ConnDriver", 0, 0, 0}
+	case "gD", "sU":
+		return portID{"ConnGPU", p.D, 0, 0}
+	}
+	return portID{"ConnSM", p.D, p.S, 0}
+}
+
+func (t *tickRec) observe(e string, f rec) {
+	switch {
+	case e == "Reset" || e == "Submit" || e == "Quiesce" || e == "Panic" || e == "Livelock" || e == "Mismatch":
+		t.r.emit(e, f)
+	case e == "Xfer":
+		t.cur = append(t.cur, rec{"e": "Xfer", "p": f["from"], "q": f["to"], "pl": f["t"]})
+	case strings.HasPrefix(e, "Send") || strings.HasPrefix(e, "Recv"):
+		q := f["p"]
+		if d, ok := f["dst"]; ok {
+			q = d
+		}
+		var pl interface{} = f["pl"]
+		if id, ok := f["id"].(portID); ok {
+			pl = []int{id.D, id.S, id.C}
+			if fin, _ := f["fin"].(bool); !fin {
+				e += "!notFinished"
+			}
+		}
+		t.cur = append(t.cur, rec{"e": e, "p": f["p"], "q": q, "pl": pl})
+	}
+}
+
+func (t *tickRec) begin() { t.cur = []rec{} }
+
+func (t *tickRec) end(h sim.Handler) {
+	id, ok := t.handler[h]
+	if !ok {
+		// a connection: learnt from the first message it moves
+		id = portID{"?", 0, 0, 0}
+		for _, ev := range t.cur {
+			if ev["e"] == "Xfer" {
+				id = connOf(ev["p"].(portID))
+				t.handler[h] = id
+				break
+			}
+		}
+	}
+	t.r.emit("Tick", rec{"x": id, "evs": t.cur})
+	t.cur = []rec{}
 }
 
 func (r *recorder) emit(e string, f rec) {
+	if r.tick != nil {
+		r.tick.observe(e, f)
+	}
 	r.seq++
 	r.count[e]++
 	o := rec{"e": e, "seq": r.seq}
@@ -552,6 +615,30 @@ func runSim(sc *Scenario, r *recorder, tmp string) {
 			}
 		}
 	}
+	if r.tick != nil {
+		t := r.tick
+		t.handler = map[sim.Handler]portID{pl.p.Driver.TickingComponent: {"Driver", 0, 0, 0}}
+		for d, g := range pl.gpus {
+			t.handler[g.TickingComponent] = portID{"GPU", d + 1, 0, 0}
+			for j, s := range pl.sms[d] {
+				t.handler[s.TickingComponent] = portID{"SM", d + 1, j + 1, 0}
+				for c, sc := range pl.subs[d][j] {
+					t.handler[sc.TickingComponent] = portID{"Subcore", d + 1, j + 1, c + 1}
+				}
+			}
+		}
+		eng.AcceptHook(hookFn(func(ctx sim.HookCtx) {
+			evt, ok := ctx.Item.(sim.Event)
+			if !ok {
+				return
+			}
+			if ctx.Pos == sim.HookPosBeforeEvent {
+				t.begin()
+			} else if ctx.Pos == sim.HookPosAfterEvent {
+				t.end(evt.Handler())
+			}
+		}))
+	}
 	handled := 0
 	eng.AcceptHook(hookFn(func(ctx sim.HookCtx) {
 		if ctx.Pos == sim.HookPosAfterEvent {
@@ -668,6 +755,7 @@ func main() {
 	scen := flag.String("scen", "", "scenario file (JSON list)")
 	out := flag.String("out", "trace.ndjson", "message-event trace output")
 	pout := flag.String("pout", "", "parser round-trip output")
+	tout := flag.String("tout", "", "tick-level trace output (one line per engine event)")
 	flag.Parse()
 
 	// the simulator prints the finish time on stdout and logs through logrus
@@ -709,6 +797,16 @@ func main() {
 		pw = bufio.NewWriter(pf)
 		pr = &recorder{enc: json.NewEncoder(pw), count: map[string]int{}}
 	}
+	var tw *bufio.Writer
+	var tf *os.File
+	if *tout != "" {
+		tf, err = os.Create(*tout)
+		if err != nil {
+			panic(err)
+		}
+		tw = bufio.NewWriter(tf)
+		r.tick = &tickRec{r: &recorder{enc: json.NewEncoder(tw), count: map[string]int{}}}
+	}
 	runs, parses := 0, 0
 	for i := range scs {
 		sc := &scs[i]
@@ -729,6 +827,11 @@ func main() {
 	stats := map[string]int{"runs": runs, "events": r.seq, "parses": parses}
 	for k, v := range r.count {
 		stats["n"+k] = v
+	}
+	if tw != nil {
+		tw.Flush()
+		tf.Close()
+		stats["tevents"] = r.tick.r.seq
 	}
 	if pr != nil {
 		pw.Flush()
